@@ -176,12 +176,14 @@ def _diruses(ds):
 
 def _argdefs(args):
     return tuple(ArgDef(a["name"]["value"], _typeref(a["type"]),
-                        value_from_ast(a["defaultValue"]) if a["defaultValue"] else None, _diruses(a["directives"]))
+                        value_from_ast(a["defaultValue"]) if a["defaultValue"] else None, _diruses(a["directives"]),
+                        desc=a.get("_description"))
                  for a in (args or ()))
 
 
 def _fielddefs(fields):
-    return tuple(FieldDef(f["name"]["value"], _typeref(f["type"]), _argdefs(f["arguments"]), _diruses(f["directives"]))
+    return tuple(FieldDef(f["name"]["value"], _typeref(f["type"]), _argdefs(f["arguments"]), _diruses(f["directives"]),
+                          desc=f.get("_description"))
                  for f in fields)
 
 
@@ -193,17 +195,19 @@ def _typedef(d):
     k = _KINDS[d["kind"]]
     name = d["name"]["value"]
     dirs = _diruses(d["directives"])
+    desc = d.get("_description")
     if k in ("OBJECT", "INTERFACE"):
         return TypeDef(k, name, _fielddefs(d["fields"]),
-                       tuple(i["name"]["value"] for i in (d.get("interfaces") or ())), dirs=dirs)
+                       tuple(i["name"]["value"] for i in (d.get("interfaces") or ())), dirs=dirs, desc=desc)
     if k == "UNION":
-        return TypeDef(k, name, members=tuple(t["name"]["value"] for t in d["types"]), dirs=dirs)
+        return TypeDef(k, name, members=tuple(t["name"]["value"] for t in d["types"]), dirs=dirs, desc=desc)
     if k == "ENUM":
-        return TypeDef(k, name, values=tuple(EnumVal(v["name"]["value"], _diruses(v["directives"])) for v in d["values"]),
-                       dirs=dirs)
+        return TypeDef(k, name, values=tuple(EnumVal(v["name"]["value"], _diruses(v["directives"]), desc=v.get("_description"))
+                                            for v in d["values"]),
+                       dirs=dirs, desc=desc)
     if k == "SCALAR":
-        return TypeDef(k, name, dirs=dirs)
-    return TypeDef(k, name, _argdefs(d["fields"]), dirs=dirs)
+        return TypeDef(k, name, dirs=dirs, desc=desc)
+    return TypeDef(k, name, _argdefs(d["fields"]), dirs=dirs, desc=desc)
 
 
 def parse_sdl(text):
@@ -219,7 +223,7 @@ def parse_sdl(text):
             exts.append(d["definition"])
         elif k == "DirectiveDefinition":
             dirs.append(DirectiveDef(d["name"]["value"], _argdefs(d["arguments"]),
-                                     tuple(l["value"] for l in d["locations"])))
+                                     tuple(l["value"] for l in d["locations"]), desc=d.get("_description")))
         elif k == "SchemaDefinition":
             roots = {o["operation"]: o["type"]["name"]["value"] for o in d["operationTypes"]}
             schema_dirs = _diruses(d["directives"])
@@ -268,8 +272,10 @@ def _desc_str(desc, indent=""):
     return indent + doc.escape_string(desc) + "\n"
 
 
-def _arg_str(a):
+def _arg_str(a, inline=False):
     s = "%s: %s" % (a.name, type_to_str(a.type))
+    if inline and a.desc is not None:
+        s = doc.escape_string(a.desc) + " " + s
     if a.default is not None:
         s += " = " + value_str(a.default)
     return s + _dirs_str(a.dirs)
@@ -278,7 +284,7 @@ def _arg_str(a):
 def _field_str(f):
     s = f.name
     if f.args:
-        s += "(" + ", ".join(_arg_str(a) for a in f.args) + ")"
+        s += "(" + ", ".join(_arg_str(a, True) for a in f.args) + ")"
     return s + ": " + type_to_str(f.type) + _dirs_str(f.dirs)
 
 
@@ -311,7 +317,7 @@ def print_type(t, extend=False):
 def print_directive(d):
     s = _desc_str(d.desc) + "directive @" + d.name
     if d.args:
-        s += "(" + ", ".join(_arg_str(a) for a in d.args) + ")"
+        s += "(" + ", ".join(_arg_str(a, True) for a in d.args) + ")"
     return s + " on " + " | ".join(d.locations)
 
 
